@@ -130,8 +130,8 @@ P = {
     ),
     "C17": (
         "model_checking",
-        "explicit-state BFS over the real RRSDatagramProtocol (single handler, and two handlers wired back to back with all delivery orders) + complete enumeration of all truncations / single-bit corruptions at depth 1",
-        "All datagram sequences over a 22-class alphabet to depth 5 (quick) / 8 (thorough) from 6 initial states (sequence counter near wrap-around, connected or not) against a reference model; closed two-handler system with <= 2 / 3 injected datagrams and every delivery order, which must always go quiet; every prefix truncation and single-bit flip of every alphabet datagram in 4 reachable states.",
+        "explicit-state BFS over the real RRSDatagramProtocol (single handler, two handlers wired back to back with all delivery orders, and the handler with its periodic_maintenance() coroutine as a stock asyncio.Task on a virtual event loop whose ready queue, timer heap and clock the explorer owns: all schedules of datagrams, loop callbacks and timer expiries to a depth) + complete enumeration of all truncations / single-bit corruptions at depth 1",
+        "All datagram sequences over a 22-class alphabet to depth 5 (quick) / 8 (thorough) from 6 initial states (sequence counter near wrap-around, connected or not) against a reference model; closed two-handler system with <= 2 / 3 injected datagrams and every delivery order, which must always go quiet; all orders of 14 datagram / endpoint events, single loop callbacks, timer expiries and two long silences (70 s / 400 s of virtual time) to depth 5 (7) with the maintenance task running; every prefix truncation and single-bit flip of every alphabet datagram in 4 reachable states.",
         "Bound: depth, alphabet, injection budget. Trusted: harness HSTRP/HDAP writer+parser, reference model of the statement, constant clock.",
         "DESIGN.md §3 C17",
     ),
@@ -196,7 +196,7 @@ def main():
             },
             {
                 "name": "E2-explicit-state",
-                "path": "/verif/mc/explore.py, /verif/mc/canon.py",
+                "path": "/verif/mc/explore.py, /verif/mc/canon.py, /verif/mc/vloop.py",
                 "serves_properties": [p for p in sorted(P) if p in ("C08", "C17", "C18", "C19", "C20")],
                 "kind_free_text": "breadth-first explicit-state search over the real library objects (one real call per transition), canonical-hash de-duplication, reference model + monitor in lock-step, every discovered state re-built from its event path on fresh objects",
             },
